@@ -483,11 +483,9 @@ fn glyph_image<'a>(out: &mut GroupOut, p: &Prov<'a>, log: &RefCell<(BTreeSet<u32
 
 fn outlines(out: &mut GroupOut, p: &impl FontTableProvider) {
     let n = num_glyphs_of(p);
-    let mut gids = probe_gids(n);
-    gids.extend([2u16, 3, 4, 5, 6, 7, n / 2].iter().filter(|g| **g < n));
-    gids.extend((8..n).step_by((n as usize / 24).max(1)).take(24));
-    let mut seen = BTreeSet::new();
-    gids.retain(|g| seen.insert(*g));
+    // {0, 1, n-1, n, 65535}, the first 64, a spread of 24 more: the list the structural walk takes its
+    // composite glyphs and subroutine-calling charstrings from
+    let gids = super::fields::outline_gids(n);
     if has(out, p, tag::GLYF) {
         let head = match sub(out, || p.read_table_data(tag::HEAD).and_then(|d| ReadScope::new(&d).read::<HeadTable>())) {
             Some(h) => h,
@@ -595,7 +593,8 @@ fn prince_subset(out: &mut GroupOut, p: &(impl FontTableProvider + SfntVersion))
 }
 
 fn instance(out: &mut GroupOut, p: &(impl FontTableProvider + SfntVersion)) {
-    // user tuples from the axes the (corrupted) fvar declares: defaults, minima, maxima, far outside
+    // user tuples from the axes the (corrupted) fvar declares: defaults, minima, maxima, half way between
+    // default and maximum / minimum (no region peaks there: scalars strictly between 0 and 1), far outside
     let axes: Vec<(Fixed, Fixed, Fixed)> = match guarded(|| -> Option<Vec<_>> {
         let d = p.read_table_data(tag::FVAR).ok()?;
         let fvar = ReadScope::new(&d).read::<FvarTable<'_>>().ok()?;
@@ -609,6 +608,8 @@ fn instance(out: &mut GroupOut, p: &(impl FontTableProvider + SfntVersion)) {
         axes.iter().map(|a| a.0).collect(),
         axes.iter().map(|a| a.2).collect(),
         axes.iter().map(|_| Fixed::from(30000i32)).collect(),
+        axes.iter().map(|a| Fixed::from_raw((a.1.raw_value() >> 1).wrapping_add(a.2.raw_value() >> 1))).collect(),
+        axes.iter().enumerate().map(|(k, a)| if k % 2 == 0 { Fixed::from_raw((a.1.raw_value() >> 1).wrapping_add(a.0.raw_value() >> 1)) } else { a.2 }).collect(),
     ];
     users.push(Vec::new());
     users.push(vec![Fixed::from(400i32)]);
